@@ -3,7 +3,7 @@ from hypothesis import strategies as st
 
 from trie import HexaryTrie
 
-from ..faults import AppendOnlyGuardDB, InjectedFault
+from ..faults import FAULTS, AppendOnlyGuardDB
 from ..hexcommon import lookup_keys, simple_ops
 from ..hexrun import apply_simple, check_lookup
 from ..ref.mpt import BLANK_ROOT
@@ -52,6 +52,10 @@ def strategy(tier):
         st.tuples(st.just("reopen"), ti, li),
         st.tuples(st.just("snapwrite"), ti, li, op),
         st.tuples(st.just("snapbatch"), ti, li, st.lists(op, min_size=1, max_size=4)),
+        # two batches open at the same time on the same trie object: A opened, B opened, B left
+        # (committed or aborted), more ops in A, A committed
+        st.tuples(st.just("overlap"), ti, st.lists(op, min_size=1, max_size=3),
+                  st.lists(op, min_size=1, max_size=3), st.booleans(), st.lists(op, max_size=2)),
     )
     return st.fixed_dictionaries(
         {
@@ -59,6 +63,57 @@ def strategy(tier):
             "steps": st.lists(step, min_size=1, max_size=30 if big else 12),
         }
     )
+
+
+def exhaustive(tier):
+    sizes = (3800,) if tier == "quick" else (3800, 12000)
+
+    def gen():
+        for n in sizes:
+            yield {"big": n}
+
+    yield (f"one very large batch ({', '.join(map(str, sizes))} sets) that re-creates historical nodes before and drops them after", gen())
+
+
+def _run_big(case, info):
+    n = case["big"]
+    db = AppendOnlyGuardDB()
+    t = impl("construct", HexaryTrie, db)
+    ledger = {}
+    model = {}
+    keys = [b"hist" + bytes([i]) for i in range(12)]
+    for rnd in range(3):
+        for i, k in enumerate(keys):
+            v = bytes([rnd * 16 + i]) * (33 + rnd)
+            impl("set-never-raises", t.set, k, v)
+            model[k] = v
+        ledger[bytes(t.root_hash)] = dict(model)
+    old_values = {k: bytes([0 * 16 + i]) * 33 for i, k in enumerate(keys)}
+    snapshot = dict(db)
+    cm = impl("squash_changes", t.squash_changes)
+    b = cm_enter("squash_changes", cm)
+    for k in keys[:6]:  # back to the values of the first round: re-creates historical nodes
+        impl("set-never-raises", b.set, k, old_values[k])
+        model[k] = old_values[k]
+    for i in range(n):
+        k = b"fill" + i.to_bytes(3, "big")
+        impl("set-never-raises", b.set, k, (i % 256).to_bytes(1, "big") * 34)
+        model[k] = (i % 256).to_bytes(1, "big") * 34
+    for k in keys[:6]:  # ... and drops them again after thousands of other writes
+        impl("set-never-raises", b.set, k, b"final" * 8)
+        model[k] = b"final" * 8
+    cm_exit("squash_changes-exit", cm)
+    ledger[bytes(t.root_hash)] = dict(model)
+    expect("append-only", not db.breaches, lambda: f"database breach during the big batch: {db.breaches[0]}")
+    gone = [h for h in snapshot if h not in db]
+    expect("no-entry-removed-or-changed", not gone, lambda: f"{len(gone)} entries disappeared, e.g. {gone[0].hex()}")
+    for root, m in ledger.items():
+        ot = impl("construct", HexaryTrie, db, root)
+        for k in list(m)[:: max(1, len(m) // 40)]:
+            check_lookup(ot, m, k, False)
+    info.label("big-batch")
+    info.nontrivial = True
+    return info
 
 
 class World:
@@ -81,7 +136,10 @@ def exec_step(w, step, ledger_roots, ledger, faulty):
     Execute one step. Returns (faulted, new_ledger_entries, facts). With faulty=True an
     InjectedFault is an accepted outcome of any call that writes to the db.
     """
-    allowed = (InjectedFault,) if faulty else ()
+    # With a failing write ANY exception may come out (a KeyError raised by the database is
+    # re-interpreted by the library as a missing node, for instance): the claim is about the
+    # database and the roots afterwards, not about the exception type.
+    allowed = (Exception,) if faulty else ()
     kind = step[0]
     i = step[1] % len(w.tries)
     t, model = w.tries[i], w.models[i]
@@ -125,6 +183,40 @@ def exec_step(w, step, ledger_roots, ledger, faulty):
         root = ledger_roots[step[2] % len(ledger_roots)]
         w.tries[i] = impl("construct", HexaryTrie, w.db, root)
         w.models[i] = dict(ledger[root])
+    elif kind == "overlap":
+        ops_a, ops_b, b_aborts, ops_a2 = step[2], step[3], step[4], step[5]
+        cm_a = impl("squash_changes", t.squash_changes)
+        a = cm_enter("squash_changes", cm_a)
+        amodel = dict(model)
+        for iop in ops_a:
+            _, what = apply_simple(a, amodel, iop)
+            facts["delete"] |= what in ("delete", "set-empty")
+        cm_b = impl("squash_changes", t.squash_changes)
+        b = cm_enter("squash_changes", cm_b)
+        bmodel = dict(model)
+        for iop in ops_b:
+            apply_simple(b, bmodel, iop)
+        if b_aborts:
+            cm_exit("squash_changes-exit", cm_b, abort_exception(len(ops_b)))
+        else:
+            status, _ = cm_exit("squash_changes-exit", cm_b, allowed=allowed)
+            if status == "raised":
+                cm_exit("squash_changes-exit", cm_a, abort_exception(0))
+                return True, new, facts
+            new.append((bytes(t.root_hash), dict(bmodel)))
+        for iop in ops_a2:
+            apply_simple(a, amodel, iop)
+        status, _ = cm_exit("squash_changes-exit", cm_a, allowed=allowed)
+        if status == "raised":
+            # the trie stays at whatever root it had before A's commit (B's or the old one)
+            if not b_aborts:
+                model.clear()
+                model.update(bmodel)
+            return True, new, facts
+        facts["batch_commit"] = True
+        model.clear()
+        model.update(amodel)
+        new.append((bytes(t.root_hash), dict(model)))
     elif kind == "snapbatch":
         root = ledger_roots[step[2] % len(ledger_roots)]
         parent_root = bytes(t.root_hash)
@@ -195,6 +287,8 @@ def check_world(w, ledger, ledger_roots, snapshot, step_no, full, info):
 
 def run_case(case):
     info = Info()
+    if case.get("big"):
+        return _run_big(case, info)
     w = World(case["ntries"])
     ledger = {BLANK_ROOT: {}}
     ledger_roots = [BLANK_ROOT]
@@ -203,7 +297,7 @@ def run_case(case):
     steps = case["steps"]
     for no, step in enumerate(steps):
         snapshot = dict(w.db)
-        mutating = step[0] in ("op", "batch", "snapwrite", "snapbatch")
+        mutating = step[0] in ("op", "batch", "snapwrite", "snapbatch", "overlap")
         if mutating:
             # fault-free execution on a clone: number of writes W and resulting roots
             c = w.clone()
@@ -214,18 +308,26 @@ def run_case(case):
             for n in range(W):
                 f = w.clone()
                 pre_roots = f.roots()
-                f.db.arm(n)
-                faulted, _, _ = exec_step(f, step, ledger_roots, ledger, True)
+                f.db.arm(n, no + n)  # the failing write raises one of three exception types
+                faulted, _new, _ = exec_step(f, step, ledger_roots, ledger, True)
                 f.db.disarm()
                 expect("fault-propagates", faulted,
                        f"write #{n} of step {no} was made to fail but the step completed")
-                expect_eq("fault-keeps-root", f.roots(), pre_roots,
-                          f"trie roots after write #{n} of step {no} failed")
+                if step[0] == "overlap":
+                    # B may have committed before A's commit failed: every trie is at a ledger root
+                    for r in f.roots():
+                        expect("fault-keeps-root", r in ledger or any(r == x for x, _ in _new),
+                               f"after write #{n} of step {no} failed a trie points at an unknown root")
+                else:
+                    expect_eq("fault-keeps-root", f.roots(), pre_roots,
+                              f"trie roots after write #{n} of step {no} failed")
                 check_world(f, ledger, ledger_roots, snapshot, no, False, info)
-                # retry without fault: same result as the fault-free execution
-                faulted, _, _ = exec_step(f, step, ledger_roots, ledger, False)
-                expect_eq("retry-after-fault-converges", f.roots(), want_roots,
-                          f"roots after retrying step {no} (write #{n} had failed)")
+                # retry without fault: same result as the fault-free execution (when the first
+                # of two overlapping batches had already committed, the state legitimately moved)
+                if f.roots() == pre_roots:
+                    faulted, _, _ = exec_step(f, step, ledger_roots, ledger, False)
+                    expect_eq("retry-after-fault-converges", f.roots(), want_roots,
+                              f"roots after retrying step {no} (write #{n} had failed)")
                 info.count("crash_points")
                 if facts0["batch_commit"]:
                     crash_in_batch += 1
